@@ -3,11 +3,13 @@
 package storage
 
 import (
+	"fmt"
 	"math/rand"
 	"os"
 	"path/filepath"
 	"sort"
 	"strconv"
+	"strings"
 	"testing"
 	"time"
 )
@@ -195,7 +197,7 @@ func TestVerifC05(t *testing.T) {
 	}
 
 	kinds := []string{"code", "reqobj", "vpnonce", "redirect", "s2s", "jti"}
-	var scns []*VerifC05Scn
+	var scns, lenScns []*VerifC05Scn
 	add := func(s *VerifC05Scn) { scns = append(scns, s) }
 	for _, k := range kinds {
 		vs := vc05Variants(k, "s1")
@@ -267,6 +269,20 @@ func TestVerifC05(t *testing.T) {
 			}
 		}
 	}
+	// secrets of several length classes, presented twice in a row
+	for _, k := range kinds {
+		for _, n := range []int{1, 43, 240, 241, 250, 256, 1000} {
+			id := strings.Repeat("k", n)
+			good := vc05Variants(k, id)[0]
+			var init []VerifC05Init
+			if k != "s2s" && k != "jti" {
+				init = []VerifC05Init{{Kind: k, ID: id, Val: "clientA"}}
+			}
+			sc := vc05Scn(fmt.Sprintf("%s-2-len%d", k, n), []string{"mem", "redis"}[rng.Intn(2)], false, init, good, good)
+			sc.Sched = []int{0, 0, 0, 0, 0, 1, 1, 1, 1, 1}
+			lenScns = append(lenScns, sc)
+		}
+	}
 	// mixed kinds presenting the same id (different namespaces)
 	add(vc05Scn("mixed-2", "mem", false, []VerifC05Init{{Kind: "code", ID: "s1", Val: "clientA"}}, vc05Variants("code", "s1")[0], vc05Variants("s2s", "s1")[0]))
 
@@ -310,6 +326,9 @@ func TestVerifC05(t *testing.T) {
 		scns = append(scns, cheap[rng.Intn(len(cheap))])
 	}
 
+	for _, s := range lenScns {
+		w.Replay(vc05StorageLevel, s)
+	}
 	for _, s := range scns {
 		n, cut := w.Explore(vc05StorageLevel, s, maxRuns)
 		if cut {
